@@ -176,6 +176,9 @@ def _task(t: T.Tuple[str, int, int, bool]) -> dict:
             v = c01_oracle.oracle_control(im, rng, n)
         elif name == 'variables':
             v = c01_oracle.oracle_variables(im, rng, n)
+        elif name == 'method_relations':
+            v = c01_oracle.oracle_method_relations(im, rng, n)
+            n = 30 * n
         elif name == 'files':
             v = c01_oracle.oracle_files(im, rng, n, os.path.dirname(im.dir))
             n = 5 * n
@@ -256,7 +259,8 @@ def plan(ctx: Ctx) -> T.List[T.Tuple[str, int, int, bool]]:
     for name, total, ch in (('short_circuit', ctx.scale(1500, 5000), 250), ('divmod', ctx.scale(3000, 10000), 500),
                             ('index', ctx.scale(3000, 10000), 500), ('keys', ctx.scale(1000, 3000), 250),
                             ('parse_laws', ctx.scale(4000, 12000), 500), ('precedence_values', ctx.scale(3000, 10000), 500),
-                            ('control', ctx.scale(800, 2400), 200), ('variables', ctx.scale(1500, 5000), 250)):
+                            ('control', ctx.scale(800, 2400), 200), ('variables', ctx.scale(1500, 5000), 250),
+                            ('method_relations', ctx.scale(1600, 6000), 100)):
         for _ in range(max(1, total // ch)):
             tasks.append(('oracle:' + name, rng.getrandbits(32), ch, full))
     tasks.append(('oracle:cross_type', 0, 0, True))
@@ -492,7 +496,7 @@ def search(ctx: Ctx, disagreements: T.List[dict]) -> None:
     tasks: T.List[T.Tuple[str, int, int, bool]] = []
     for name, total, ch in (('short_circuit', 5000, 250), ('divmod', 10000, 500), ('index', 10000, 500), ('keys', 3000, 250),
                             ('parse_laws', 10000, 500), ('precedence_values', 10000, 500), ('control', 3000, 200),
-                            ('variables', 5000, 250)):
+                            ('variables', 5000, 250), ('method_relations', 4000, 100)):
         for _ in range(total // ch):
             tasks.append(('oracle:' + name, rng.getrandbits(32), ch, True))
     tasks += [('oracle:cross_type', 0, 0, True), ('oracle:escapes', 0, 0, True)]
@@ -552,6 +556,16 @@ def _still_fails(im: c01_impl.Impl, rep: dict) -> bool:
     ok, vs, ans = c01_oracle.ev(im, code)
     if fam in MUST_FAIL:
         return ok                       # these programs must be rejected
+    if fam in ('method', 'bool-to-string-empty', 'relation', 'relations'):
+        im.record_calls = True
+        try:
+            c01_oracle.ev(im, code)
+            viol = c01_oracle.judge_calls(im, code)
+        finally:
+            im.record_calls = False
+        if fam in ('relation', 'relations'):
+            return bool(viol) or case.get('answer') == ans
+        return any(k.split(':')[0] == fam for k, _w, _c in viol)
     if fam == 'literal-value':
         try:
             return bool(c01_oracle.check_string_nodes(im, code, im.parse(code)))
